@@ -173,6 +173,7 @@ Proof.
     destruct (nth_error (c_boots C) a) as [[[p rid'] [|pend|]]|]; try (injection H as <- <-; split; [exact K | reflexivity]).
     pose proof (closed_set_boot C a KDead K) as K1.
     rewrite (phase_done _ p (cl_done _ K1)) in H. destruct pend; injection H as <- <-; (split; [exact K1 | reflexivity]).
+  - (* EResend *) rewrite Cc in H. injection H as <- <-. split; [exact K | reflexivity].
 Qed.
 
 Theorem run_closed : forall evs C C' o, ClosedInv C -> run C evs = (C', o) -> ClosedInv C' /\ quiet o.
